@@ -10,6 +10,7 @@ import PrqlModel.Drv.Lex
 import PrqlModel.Drv.Take
 import PrqlModel.Drv.Json
 import PrqlModel.Drv.Rq
+import PrqlModel.Drv.Scope
 namespace Drv
 
 def handlers : List (List String → Option String) := [
@@ -18,7 +19,8 @@ def handlers : List (List String → Option String) := [
   Drv.Lex.handle,
   Drv.Take.handle,
   Drv.Json.handle,
-  Drv.Rq.handle
+  Drv.Rq.handle,
+  Drv.Scope.handle
 ]
 
 def handle (fields : List String) : String :=
